@@ -77,7 +77,7 @@ def probe_period(I, ctx, unit="month", tag="probe"):
 
 
 class _MemBase(Contract):
-    prop = ("C17", "C01", "C19")
+    prop = ("C17", "C01", "C19", "C13")
     top_level = True
     inline = ("openfisca_core.periods.helpers.period*",)
     cases = ("dated", "eternal")
@@ -145,6 +145,8 @@ class MemPut(_MemBase):
         res = [("entry-set", z3.And(pres, B._zb(B.eq_formula(I, ctx, unwrap(v), a["value"]))))]
         other = z3.Not(B._zb(B.eq_formula(I, ctx, q, key)))
         res.append(("other-entries-unchanged", z3.Implies(other, same_entry(I, ctx, look(q), a["__look0"](q)))))
+        # arrays handed to / out of a storage are shared (with callers, with the storages of cloned holders): never written in place
+        res.append(("no-array-is-written-in-place", not ctx.ghost.get("written_in_place")))
         return res
 
 
@@ -539,7 +541,8 @@ class HolderSetFull(Contract):
         stored = ta[0]["value"]
         key = a["period"]
         pres, v = w.view(key)
-        res = [("stored-view-of-the-period-is-the-value", z3.And(pres, B._zb(B.eq_formula(I, ctx, v, stored))))]
+        res = [("stored-view-of-the-period-is-the-value", z3.And(pres, B._zb(B.eq_formula(I, ctx, v, stored)))),
+               ("no-array-is-written-in-place", not ctx.ghost.get("written_in_place"))]
         if w.holder.fields["_eternal"]:
             return res
         other = z3.Not(B._zb(B.eq_formula(I, ctx, q, key)))
@@ -580,14 +583,16 @@ class HolderDeleteArrays(Contract):
     name = f"{HOLDER}.delete_arrays"
     prop = ("C17", "C02", "C13")
     top_level = True
-    cases = tuple(c[0] for c in CONFIGS)
-    descr = "deleting a period removes exactly the stored periods it contains, under every storage setting"
+    cases = tuple((c[0], u) for c in CONFIGS for u in ("year", "month"))
+    descr = ("deleting a period - a longer one, or one definition period as the cache purge does - removes exactly the stored periods it "
+             "contains, under every storage setting (memory and disk)")
     inline = HOLDER_INLINE
 
     def setup(self, I, ctx, case):
-        _, disk, eternal = [c for c in CONFIGS if c[0] == case][0]
+        cfg, unit = case
+        _, disk, eternal = [c for c in CONFIGS if c[0] == cfg][0]
         w = HWorld(I, ctx, disk=disk, eternal=eternal)
-        return {"self": w.holder, "period": sym_period(I, ctx, "year"), "__w": w}
+        return {"self": w.holder, "period": sym_period(I, ctx, unit), "__w": w}
 
     @staticmethod
     def local_contracts():
